@@ -724,3 +724,29 @@ class Flags:
             kn, x = self.eval(e.operand, st, fr)
             return kn, (not x) if kn else None
         return False, None
+
+
+def boundary_classes(fnode, name):
+    """Ordering comparisons of anything with the local/parameter `name` in a
+    function, each reduced to which side of the boundary equality falls on:
+    'excluded' for `x >= name` / `x < name` (and the flipped spellings
+    `name <= x`, `name > x`), 'included' for `x > name` / `x <= name`.  The
+    class does not change under negation, De Morgan or swapping the sides,
+    so it is a property of the boundary and not of its spelling.  Returns a
+    list of (class, Compare node)."""
+    out = []
+    for c in ast.walk(fnode):
+        if not isinstance(c, ast.Compare) or len(c.ops) != 1:
+            continue
+        l, op, r = c.left, type(c.ops[0]), c.comparators[0]
+        if op not in (ast.Gt, ast.GtE, ast.Lt, ast.LtE):
+            continue
+        if isinstance(r, ast.Name) and r.id == name:
+            pass
+        elif isinstance(l, ast.Name) and l.id == name:
+            op = {ast.Gt: ast.Lt, ast.Lt: ast.Gt, ast.GtE: ast.LtE,
+                  ast.LtE: ast.GtE}[op]
+        else:
+            continue
+        out.append(('excluded' if op in (ast.GtE, ast.Lt) else 'included', c))
+    return out
